@@ -18,7 +18,7 @@ use std::process::{Command, Stdio};
 
 pub const KINDS: &[&str] = &[
     "hist:C06", "hist:C07", "hist:C08", "plan:C15", "plan:C21", "plan:C22", "sem:C16", "sem:C17", "sem:C18", "sem:C19", "sem:C20", "types", "dense-special",
-    "hist+plan",
+    "hist+plan", "hist:C10", "hist:C11", "hist:C12", "hist:C14", "hist:C30",
 ];
 
 pub struct ScenOut {
